@@ -7,9 +7,8 @@ import os, sys, subprocess, tempfile, shutil, hashlib, json, random
 from tjlib import *
 import asm2lean
 
-CONFIG_ORDER = ['rv32i', 'rv32e', 'armv6', 'armv6m', 'armv7m', 'xtensa_w', 'xtensa_c0']
+CONFIG_ORDER = ['rv32i', 'rv32e', 'rv64i', 'armv6', 'armv6m', 'armv7m', 'xtensa_w', 'xtensa_c0']
 NOT_PROVED = {
-    'rv64i': 'tinyjambu-{128,192,256}-asm-riscv64i.S: needs a 64-bit instance of the machine (W-instructions); not built yet',
     'avr5': 'tinyjambu-{128,192,256}-asm-avr5.S: needs an 8-bit machine with carry; not built yet',
 }
 MASK = 0xFFFFFFFF
@@ -224,4 +223,5 @@ def check(ctx):
     ctx.extra_cov['exhaustive'] = False
     ctx.assume += ['TJ.Asm.{RiscV,Arm,Xtensa}: this project\'s reading of the instruction semantics and calling conventions (not validated by execution: no emulator exists here)',
                    'memory idealisation of TJ.Asm.Machine (word-granular, stack disjoint from the state object)',
-                   'AVR5 and RV64I back ends are translated by no theorem yet: listed under coverage.backends.not_proved']
+                   'RV64I back ends (rv64i_*) are proved on their 32-bit projection: the W-form shifts, lw/sw and bitwise operations act on the low words exactly as the RV32 forms (per-instruction lemmas in lean/TJ/Asm/RV64.lean); the lifting to whole executions, 64-bit address arithmetic and the 64-bit compare of the round counter (exact for counts below 2^31) are assumptions, not theorems',
+                   'AVR5 back ends are translated by no theorem yet: listed under coverage.backends.not_proved']
